@@ -8,7 +8,7 @@ namespace GoModel
 variable (ext : Ext) (mode : Mode)
 
 /-- the declared part of an option record -/
-def Opt.static (o : Opt) : Opt := { o with value := .b false, called := false, usedAlias := [] }
+def Opt.static (o : Opt) : Opt := { o with value := .b false, called := false, usedAlias := [], lowerKeys := false }
 
 def StaticEq (A B : Prog) : Prop := ∀ oid, (A.opt oid).static = (B.opt oid).static
 
